@@ -29,14 +29,28 @@ func (o *Obl) smt(extraGet []string) string {
 	}
 	sb.WriteString(sy.decls(defined))
 	sb.WriteString(o.Defs)
+	sh := newSharer()
+	seen := map[*Term]bool{}
+	for _, p := range o.PC {
+		sh.collectBound(p, seen)
+	}
+	sh.collectBound(o.Goal, seen)
+	for _, p := range o.PC {
+		sh.visit(p)
+	}
+	if !o.Cover {
+		sh.visit(o.Goal)
+	}
+	sh.assign()
+	sh.defs(&sb)
 	for _, p := range o.PC {
 		sb.WriteString("(assert ")
-		p.write(&sb)
+		sh.write(p, &sb, false)
 		sb.WriteString(")\n")
 	}
 	if !o.Cover {
 		sb.WriteString("(assert (not ")
-		o.Goal.write(&sb)
+		sh.write(o.Goal, &sb, false)
 		sb.WriteString("))\n")
 	}
 	for _, g := range o.ExtraAsserts {
@@ -195,6 +209,20 @@ func dischargeOne(o *Obl, dir string, timeoutS int, all bool) {
 		o.Status, o.Solver, o.Time = r.status, r.solver, r.dur
 		return
 	}
+	// first attempt: cone-of-influence slice, one quick solver
+	if sl := slicePC(o.PC, o.Goal, 3); sl != nil {
+		so := *o
+		so.PC = sl
+		sfn := strings.TrimSuffix(fn, ".smt2") + ".sliced.smt2"
+		os.WriteFile(sfn, []byte(so.smt(nil)), 0o644)
+		r := portfolio(sfn, min(5, timeoutS), false)
+		if r.status == "unsat" {
+			o.Status, o.Solver, o.Time, o.Model = r.status, r.solver+" (sliced VC)", r.dur, r.out
+			return
+		}
+		o.Time += r.dur
+	}
 	r := portfolio(fn, timeoutS, all)
-	o.Status, o.Solver, o.Time, o.Model = r.status, r.solver, r.dur, r.out
+	o.Status, o.Solver, o.Model = r.status, r.solver, r.out
+	o.Time += r.dur
 }
